@@ -115,10 +115,30 @@ func (f *decompressor) step() (err error) {
 	}
 
 	if state.input == nil {
-		state.input, err = f.rBuf.Peek(f.rBuf.Size())
+		if state.phase == phaseStreamEnd && f.writePos == f.readPos {
+			// the final block is decoded and delivered: the end of the
+			// stream is reported without asking the source for anything more
+			state.phase = phaseFinish
+			return io.EOF
+		}
+		// Decode what the source has delivered so far; wait for it only when
+		// that is nothing beyond the bytes already held in the bit buffer.
+		n := f.rBuf.Buffered()
+		if held := int(state.bitsLen / 8); n <= held {
+			n = held + 1
+		}
+		state.input, err = f.rBuf.Peek(n)
+		if err == nil {
+			state.input, err = f.rBuf.Peek(f.rBuf.Buffered())
+		}
 		f.peekSize = len(state.input)
 		if err != nil && err != bufio.ErrBufferFull && err != io.EOF {
-			return err
+			if f.peekSize <= int(state.bitsLen/8) {
+				return err
+			}
+			// data arrived together with the error: decode it first, the
+			// source reports the error again when it is asked for more
+			err = nil
 		}
 		f.eof = err == io.EOF
 		state.input = state.input[f.state.bitsLen/8:]
